@@ -1,7 +1,7 @@
 (* C02 - Refining an allocation conserves tiling, module area and centroid.
    Statements only; every proof is [exact <lemma>]. *)
 From FrameModel Require Import Num.QcTac Geometry.Rect Alloc.Alloc Alloc.GeomExtra Alloc.RefinesFacts
-  Alloc.AcceptFacts Alloc.OpsFacts.
+  Alloc.AcceptFacts Alloc.OpsFacts Alloc.Hist Alloc.HistFacts.
 Open Scope list_scope.
 Open Scope Qc_scope.
 
@@ -58,3 +58,67 @@ Theorem C02_ov_mono : forall a b p q, is_inside a p = true -> is_inside b q = tr
   area_overlap a b <= area_overlap p q.
 Proof. exact ov_mono. Qed.
 Print Assumptions C02_ov_mono.
+
+(* ---- histories on shared objects (Alloc/Hist.v) ----
+   A program may keep every allocation it has built, call any of them again (refine / uniform_refinement_depth /
+   griddify / must_be_refined / max_refinement_depth / area / center, with any arguments), and set rect.fixed in
+   place on a cell between two calls; a cell that an operation did not cut is the same Rectangle object in the
+   result, so the flag is seen by both.  [run_hist] is that program on the model: cells carry the identity of their
+   Rectangle object, the state is the list of allocations built so far, every step is a pure function of the
+   current values.  [hvalid aeps s]: s has at least one allocation and all of them are accepted by the constructor.
+   [event_ok eps aeps q (call, src, result)]: src - the values the target had when the call was made - is accepted,
+   and: a refinement call returned [ONew (Some new)] with [run_op call src = Some new], [refines src new] and
+   [accepted new] (the clauses of C02, with the fixed flags of that moment); a query returned the value function
+   of Alloc.v on src. *)
+
+(* forgetting the object identities, a call is the value function on the current values: nothing is remembered *)
+Theorem C02_htrans_erase : forall eps aeps q o next l,
+  option_map (fun p => hvals (snd p)) (htrans eps aeps q o next l) = run_op eps aeps q o (hvals l).
+Proof. exact htrans_erase. Qed.
+Print Assumptions C02_htrans_erase.
+
+(* setting fixed flags in place keeps an allocation accepted *)
+Theorem C02_flag_rel_accepted : forall aeps l l',
+  Forall2 (fun c c' => c' = c \/ exists b, c' = cset_fixed b c) l l' -> accepted aeps l -> accepted aeps l'.
+Proof. exact flag_rel_accepted. Qed.
+Print Assumptions C02_flag_rel_accepted.
+
+(* every call of every history succeeds and is a refinement of what its target was at that moment *)
+Theorem C02_run_hist_ok : forall eps aeps q ops, 0 <= aeps -> Forall hop_admissible ops ->
+  forall s, hvalid aeps s ->
+  hvalid aeps (fst (run_hist eps aeps q ops s)) /\ Forall (event_ok eps aeps q) (snd (run_hist eps aeps q ops s)).
+Proof. exact run_hist_ok. Qed.
+Print Assumptions C02_run_hist_ok.
+
+Theorem C02_hist_ok : forall eps aeps q cells ops, 0 <= aeps -> accepted aeps cells -> Forall hop_admissible ops ->
+  hist eps aeps q cells ops = Some (map snd (snd (run_hist eps aeps q ops (hinit cells)))) /\
+  hvalid aeps (fst (run_hist eps aeps q ops (hinit cells))) /\
+  Forall (event_ok eps aeps q) (snd (run_hist eps aeps q ops (hinit cells))).
+Proof. exact hist_ok. Qed.
+Print Assumptions C02_hist_ok.
+
+(* A[k].allocations[i].rect.fixed = b sets the flag of every cell sharing that Rectangle object, in every
+   allocation of the history, and changes nothing else *)
+Theorem C02_hset_fixed_spec : forall eps aeps q s k i b, hvalid aeps s ->
+  let l := hget s k in
+  let j := (i mod List.length l)%nat in
+  exists hc, nth_error l j = Some hc /\
+    fst (hstep eps aeps q (HSetFixed k i b) s) = hset_fixed (fst hc) b s /\
+    nth_error (hvals (hget (hset_fixed (fst hc) b s) k)) j = Some (cset_fixed b (snd hc)) /\
+    Forall2 (Forall2 (fun x x' : hcell => fst x' = fst x /\
+                        (if Nat.eqb (fst x) (fst hc) then snd x' = cset_fixed b (snd x) else snd x' = snd x)))
+            (hallocs s) (hallocs (hset_fixed (fst hc) b s)).
+Proof. exact hset_fixed_spec. Qed.
+Print Assumptions C02_hset_fixed_spec.
+
+(* ... and the next refinement call on that allocation, whatever it is and whatever was asked of the
+   allocation before, hands that cell over whole *)
+Theorem C02_set_fixed_true_not_cut : forall eps aeps q s k i o', 0 <= aeps -> hvalid aeps s -> op_admissible o' ->
+  let s1 := fst (hstep eps aeps q (HSetFixed k i true) s) in
+  let src := hvals (hget s1 k) in
+  let j := (i mod List.length src)%nat in
+  exists c new parts, nth_error src j = Some c /\ fixed (crect c) = true /\
+    snd (hstep eps aeps q (HApply k o') s1) = ONew (Some new) /\
+    new = List.concat parts /\ Forall2 cell_refines src parts /\ nth_error parts j = Some [c].
+Proof. exact set_fixed_true_not_cut. Qed.
+Print Assumptions C02_set_fixed_true_not_cut.
